@@ -245,8 +245,12 @@ def _w_axis_angle(task):
     if tier == "thorough":
         axes = lattice_axes(2)
     points = [None, (0, 0, 0), (1, 2, 3), (-2, 0, 5)]
-    for ax in axes:
-        for ang in angle_grid(tier):
+    # small angles: every eigenvalue of the rotation is within 1e-8 of 1 in its real part below 1.4e-4
+    small = [1e-5, -1e-5, 1e-7, -3e-6]
+    pairs = [(ax, ang) for ax in axes for ang in angle_grid(tier)]
+    pairs += [(ax, ang) for ax in lattice_axes(2) for ang in small if (ax, ang) not in set(pairs)]
+    for ax, ang in pairs:
+        if True:
             want3 = rodrigues(ax, ang)
             for pt in points:
                 case = {"family": "axis_angle", "axis": list(ax), "angle": ang, "point": None if pt is None else list(pt)}
